@@ -1,8 +1,9 @@
 \* exhaustive: methods x statuses x classes, quick tier: two calls, one repetition
 CONSTANTS
   Statuses = {200, 204, 301, 400, 404, 429, 500}
-  Retryable = {408, 429, 503}
+  RetryStatuses = {408, 429, 503}
   RetryBodies = {"valid", "notJSON"}
+  UndecodableBodies = {"wrongType", "empty"}
   AfterRetryStatuses = {200, 204, 301, 400, 404, 500}
   MaxAnswers = 2
   MaxCalls = 2
